@@ -17,7 +17,7 @@ RULE = ("K (float32): (a) setup defaults: EnergyThresholdCondition().setup min_s
         "run and the first reported stop is compared exactly with the model's predicted halt step (and max/min after setup); "
         "for a subset the real `fdtdx.run_fdtd(stopping_condition=...)` is executed: halt step vs model, traced step "
         "sequence, and the property itself on the implementation (halt = first reported stop, <= max_steps, <= T, >= "
-        "min_steps unless max/T come first, final fields and detector states = plain run of that many steps at 1e-5). "
+        "min_steps unless max/T come first, final fields and detector states = plain run of that many steps at 1e-5; for energy conditions also halt step = first stop of the DECLARED condition - explicit min/max as passed, incl. min_steps=0 - on the plain run's energies, seed C07h). "
         "non-trivial = a triple whose halt step is not T.")
 
 _np32 = np.float32
